@@ -158,7 +158,8 @@ pub fn strategy() -> BoxedStrategy<Case> {
 
 pub fn run(ctx: &Ctx) -> i32 {
     let cases = ctx.tier.pick(8_000, 300_000);
-    let agg = run_prop(ctx, "case", 16, cases, strategy, |case: &Case| {
+    let pre = crate::props::scen::replay_saved(ctx, "C07", &|st, _| st.wraps_with_inflight > 0);
+    let mut agg = run_prop(ctx, "case", 16, cases, strategy, |case: &Case| {
         let (violations, stats, trace) = eval_case(case);
         let mut classes = Vec::new();
         if stats.wraps > 0 {
@@ -175,6 +176,11 @@ pub fn run(ctx: &Ctx) -> i32 {
         }
         Eval { nontrivial: stats.wraps_with_inflight > 0, classes, violations, watchdog: trace.watchdog }
     });
+    let pre_failed = pre.failure.clone();
+    agg.merge(pre);
+    if pre_failed.is_some() {
+        agg.failure = pre_failed;
+    }
     finish(
         ctx,
         agg,
